@@ -2639,6 +2639,12 @@ impl DhtNetworkManager {
         Ok(())
     }
 
+    /// Number of pending DHT operations.
+    #[cfg(feature = "verif-hooks")]
+    pub fn verif_active_operations_len(&self) -> usize {
+        self.active_operations.lock().map(|g| g.len()).unwrap_or(usize::MAX)
+    }
+
     /// Get current statistics
     pub async fn get_stats(&self) -> DhtNetworkStats {
         self.stats.read().await.clone()
